@@ -18,6 +18,8 @@ Ops1_6 == [c \in {1} |-> 6]
 Ops1_7 == [c \in {1} |-> 7]
 Ops2_52 == [c \in {1, 2} |-> IF c = 1 THEN 5 ELSE 2]
 Ops2_42 == [c \in {1, 2} |-> IF c = 1 THEN 4 ELSE 2]
+Ops2_32 == [c \in {1, 2} |-> IF c = 1 THEN 3 ELSE 2]
+Ops2_31 == [c \in {1, 2} |-> IF c = 1 THEN 3 ELSE 1]
 \* liveness: every thread keeps taking steps, except that a running task need not finish and a client
 \* need not issue further operations ("without waiting for any running task to finish")
 WorkerNoEnd(w) == WDead(w) \/ WCheck(w) \/ WGet(w) \/ WSDone(w) \/ WActive(w) \/ WActive1(w) \/ WActive1b(w) \/ WActive2(w) \/ WCleanup2(w) \/ WBegin(w)
